@@ -31,6 +31,12 @@ RULE = ("one case = one logical setting for one key: a type hint from the gramma
         "parsers, first in a clean context, then after an earlier parse_args of another parser: 1-4 accepted options followed "
         "by a rejected --cfg (wrong type, unparsable, unknown class; string or file), an accepted --cfg, accepted-then-"
         "rejected, a rejected option, options after it; each case runs in its own contextvars.copy_context(). "
+        "Sub-command family (50 quick / 250 thorough): a parser with 2-3 sub-commands, one top-level key and 1-3 keys of the "
+        "chosen sub-command (not necessarily the first) with types from a tame set (scalars, Optional, List, Dict, Tuple, Set, "
+        "Enum; values every channel accepts); dotted options, parse_object, parse_env(MAPPING) with the variables absent from "
+        "os.environ, os.environ + parse_args(env=True), parse_string, parse_path, --cfg FILE/STRING, PREFIX_CFG, "
+        "default_config_files; every leaf key judged as an ordinary setting (Group). Float settings are rendered by repr or "
+        "(20%) as another JSON number literal (1e5, 2E3, -3e2, 1.5E+3, 12e-1). "
         "distinct = distinct (type, value, key, prefix, spelling, modes) resp. (settings, earlier call); non-trivial = >= 8 "
         "channel runs")
 TRUSTED = [
@@ -56,6 +62,9 @@ ASSUMPTIONS = [
     "history family: the dataclass / subclass types are opaque to the model — a channel's answer after an earlier call is "
     "predicted from its clean-context answer and the state of previous_config computed by Model/C05History.v; other process "
     "state (parser-object state is C09's) is excluded by using a fresh parser per call",
+    "sub-command family: the sub-command is named explicitly in every channel (choosing it is C17's); a key of a sub-command is "
+    "modelled by the same per-key pipeline as a top-level key (the extra type-check passes of the sub-parser are absorbed by "
+    "the fixed-point guard; the family keeps to types whose check is idempotent)",
     "the text '--' is not used as a value (argparse removes it) and bare NoneType is not used as a type hint",
 ]
 FINDING_CLASSES = {1: "none-unchecked", 3: "literal-eq-channels", 4: "jsonnet-numbers"}   # 2 (clash-key-unadapted) repaired
